@@ -67,25 +67,27 @@ JsRun(j, s) == IF s = <<>> THEN [j |-> j, d |-> <<>>]
                         b == JsRun(a.j, Tail(s))
                     IN  [j |-> b.j, d |-> a.d \o b.d]
 
+\* returns the new consumer state, d = the cooked characters of literals, t = the characters the JS engine receives
 ConsumeSym(p, c0, s) ==
     \* HTML input-stream preprocessing: CR and CRLF become LF; U+0000 in script data becomes U+FFFD
-    IF s = "LF" /\ c0.cr THEN [cs |-> [c0 EXCEPT !.cr = FALSE], d |-> <<>>]
+    IF s = "LF" /\ c0.cr THEN [cs |-> [c0 EXCEPT !.cr = FALSE], d |-> <<>>, t |-> <<>>]
     ELSE LET c == IF s = "CR" THEN "LF" ELSE IF s = "NUL" THEN "FFFD" ELSE s
              crn == (s = "CR")
          IN IF PosDef(p).html = "sd" THEN
                 LET h2 == JsSDStep(c0.h, c)
                     r == IF c0.h = <<"END">> THEN [j |-> c0.j, d |-> <<>>] ELSE JsRun(c0.j, <<c>>)
-                IN  [cs |-> [h |-> h2, cr |-> crn, j |-> r.j], d |-> r.d]
+                IN  [cs |-> [h |-> h2, cr |-> crn, j |-> r.j], d |-> r.d, t |-> IF c0.h = <<"END">> THEN <<>> ELSE <<c>>]
             ELSE
                 LET a == JsAttrStep(c0.h, c)
                     r == JsRun(c0.j, a.out)
-                IN  [cs |-> [h |-> a.q, cr |-> crn, j |-> r.j], d |-> r.d]
+                IN  [cs |-> [h |-> a.q, cr |-> crn, j |-> r.j], d |-> r.d, t |-> a.out]
 
 RECURSIVE Consume(_, _, _)
-Consume(p, c0, s) == IF s = <<>> THEN [cs |-> c0, d |-> <<>>]
+\* top: the JS lexer was at top level (outside every literal) after one of the symbols
+Consume(p, c0, s) == IF s = <<>> THEN [cs |-> c0, d |-> <<>>, t |-> <<>>, top |-> FALSE]
                      ELSE LET a == ConsumeSym(p, c0, Head(s))
                               b == Consume(p, a.cs, Tail(s))
-                          IN  [cs |-> b.cs, d |-> a.d \o b.d]
+                          IN  [cs |-> b.cs, d |-> a.d \o b.d, t |-> a.t \o b.t, top |-> (a.cs.j.m = "top" \/ b.top)]
 
 NormSeq(s) == [i \in 1..Len(s) |-> JsNorm(s[i])]
 Expected(p, c) == IF PosDef(p).expect = "json" THEN NormSeq(JsJsonV(JsonVariant, c)) ELSE <<JsNorm(c)>>
